@@ -93,8 +93,17 @@ structure BindOut where
   slots : SlotOut
 deriving Repr, Inhabited
 
-/-- `doBind` up to the point where the closures are generated (no Reorder'd providers) -/
-def bindModel (ti : TyInfo) (enodes : List ENode) (descs : List PDesc) (inv : Sig) (ini : Option Sig) :
+/-- put the assembled funcs into the order `reorder` chose (ids); `none` unless it is a permutation -/
+def permuteTo (funcs : List CP) (order : List Nat) : Option (List CP) :=
+  let picked := order.filterMap fun id => funcs.find? (·.id == id)
+  if order.length == funcs.length && picked.length == funcs.length && order.eraseDups.length == order.length then some picked
+  else none
+
+/-- `doBind` up to the point where the closures are generated.  reorder.go is not modelled: for a
+    chain with Reorder'd providers the order it chose (and the providers it gave up on) is taken from
+    the implementation's S4 dump, after the validators of C17 accepted it. -/
+def bindModel (ti : TyInfo) (enodes : List ENode) (descs : List PDesc) (inv : Sig) (ini : Option Sig)
+    (order4 : Option (List Nat) := none) (cannot4 : List Nat := []) :
     Except BindErr BindOut :=
   match editAll enodes with
   | .error e => .error (.edit e)
@@ -102,8 +111,13 @@ def bindModel (ti : TyInfo) (enodes : List ENode) (descs : List PDesc) (inv : Si
     let provs := order.filterMap fun n => descs.find? (·.idx == n.idx)
     match assemble provs inv ini with
     | none => .error .classify
-    | some asm =>
-      match computeInclusion ti asm.funcs with
+    | some asm0 =>
+      match (match order4 with
+             | none => some asm0
+             | some o => (permuteTo asm0.funcs o).map fun fs => { asm0 with funcs := fs }) with
+      | none => .error .internal
+      | some asm =>
+      match computeInclusion ti asm.funcs cannot4 with
       | .error .required => .error .required
       | .error .wanted => .error .wanted
       | .error .internal => .error .internal
